@@ -116,6 +116,16 @@ func (r *Retry) Next() bool {
 		return false
 	}
 
+	// A closed closer or a cancelled context wins over a timer that has
+	// already expired (a select picks at random among ready cases).
+	select {
+	case <-r.opts.Closer:
+		return false
+	case <-r.ctxDoneChan:
+		return false
+	default:
+	}
+
 	// Wait before retry.
 	select {
 	case <-time.After(r.retryIn()):
